@@ -192,6 +192,71 @@ theorem tex_end_is_total (t : TexIter) (v : t.Inv) (hi : ¬ t.idx < t.len) :
     unfold flat TexIter.abs
     rw [specArray_length, this.1, this.2]; omega
 
+/-! ### the flattened list at the cursor (volumes) -/
+
+theorem specSlices_length (v : VolumeDesc) : (specSlices v).length = v.d := by
+  simp [specSlices]
+
+theorem specSlices_length_mk (a b c o sl : Nat) :
+    (specSlices ⟨a, b, c, o, sl⟩).length = c := by
+  simp [specSlices]
+
+theorem specVolFlat_succ (px : PixelInfo) (w h d level n off : Nat) :
+    specVolFlat px w h d level (n + 1) off =
+      specSlices ⟨mipSize w level, mipSize h level, mipSize d level, off,
+        px.surfIdeal (mipSize w level) (mipSize h level)⟩ ++
+      specVolFlat px w h d (level + 1) n
+        (off + px.surfIdeal (mipSize w level) (mipSize h level) * mipSize d level) := by
+  simp [specVolFlat, specVol]
+
+theorem specVolFlat_getElem (px : PixelInfo) (w h d : Nat) : ∀ (n level off j k : Nat), j < n →
+    k < mipSize d (level + j) →
+    (specVolFlat px w h d level n off)[depthSum d level j + k]? =
+      some ⟨mipSize w (level + j), mipSize h (level + j),
+            off + volIdeal px w h d level j
+              + k * px.surfIdeal (mipSize w (level + j)) (mipSize h (level + j)),
+            px.surfIdeal (mipSize w (level + j)) (mipSize h (level + j))⟩ := by
+  intro n
+  induction n with
+  | zero => intro level off j k hj; omega
+  | succ n ih =>
+    intro level off j k hj hk
+    rw [specVolFlat_succ]
+    cases j with
+    | zero =>
+      simp only [depthSum, Nat.zero_add, Nat.add_zero] at hk ⊢
+      rw [List.getElem?_append_left (by rw [specSlices_length_mk]; exact hk)]
+      simp [specSlices, hk, volIdeal]
+    | succ j =>
+      have e : level + (j + 1) = level + 1 + j := by omega
+      rw [e] at hk ⊢
+      simp only [depthSum]
+      rw [List.getElem?_append_right (by rw [specSlices_length_mk]; omega), specSlices_length_mk]
+      have e2 : mipSize d level + depthSum d (level + 1) j + k - mipSize d level =
+          depthSum d (level + 1) j + k := by omega
+      rw [e2, ih (level + 1) _ j k (by omega) hk]
+      simp only [volIdeal]
+      congr 2
+      omega
+
+/-- For volume layouts the surface reported by `current()` is the element of the flattened
+list at the cursor, and the ideal elapsed bytes are its offset. -/
+theorem vol_current_is_flat (t : VolIter) (v : t.Inv) (hl : t.level < t.volume.mips) :
+    ∃ s, (flat (.vol t))[t.abs]? = some s ∧ s.offset = t.elapsed ∧
+      t.currentP = some (some ⟨s.w, s.h, s.len, t.level⟩) := by
+  have hd : t.depth < mipSize t.volume.d t.level := by
+    cases v.cursor with
+    | inl h => exact h.2
+    | inr h => omega
+  unfold flat VolIter.abs
+  have hg := specVolFlat_getElem t.volume.px t.volume.w t.volume.h t.volume.d t.volume.mips 0 0
+    t.level t.depth hl (by simpa using hd)
+  simp only [Nat.zero_add] at hg
+  rw [hg]
+  refine ⟨_, rfl, ?_, ?_⟩
+  · simp [VolIter.elapsed, Volume.sliceLen]
+  · rw [VolIter.Inv.currentP v, if_pos hl]; simp [Volume.sliceLen]
+
 /-! ### decoder-level invariant over arbitrary histories -/
 
 /-- when a surface is current, `advance` adds exactly its length to the elapsed bytes -/
@@ -565,6 +630,114 @@ theorem rejected_unchanged (d : Dec) (v : DecInv d) (op : DecOp)
     rw [if_neg hnot]
     intro hne; exact hne rfl
   | readCubeMap w h => exact absurd rfl (hop w h)
+
+/-- abs of a fresh iterator is 0 -/
+theorem abs_new (L : DataLayout) : abs (SurfIter.new L) = 0 := by
+  cases L with
+  | texture t => simp [SurfIter.new, abs, TexIter.abs]
+  | volume v => simp [SurfIter.new, abs, VolIter.abs, depthSum]
+  | textureArray a => simp [SurfIter.new, abs, TexIter.abs]
+
+private theorem abs_le_count (it : SurfIter) (v : IterInv it) : abs it ≤ count it := by
+  cases it with
+  | tex t => exact TexIter.Inv.abs_le v
+  | vol t => exact VolIter.Inv.abs_le v
+
+/-- C08, the cursor: the calls that consume a surface (`read_surface`, `read_surface_rect`,
+`skip_surface`) move the cursor of the flattened list forward by exactly one when they
+succeed, and fail with `NoMoreSurfaces` exactly at the end of the list. -/
+theorem consuming_calls_cursor (d : Dec) (v : DecInv d) (op : DecOp)
+    (hop : (∃ w h, op = .read w h) ∨ (∃ ox oy w h, op = .readRect ox oy w h) ∨ op = .skipSurface) :
+    ((d.step op).2.1 = .ok → abs (d.step op).1.iter = abs d.iter + 1 ∧ abs d.iter < count d.iter) ∧
+    ((d.step op).2.1 = .noMoreSurfaces ↔ abs d.iter = count d.iter) := by
+  obtain ⟨r, hr, hiff⟩ := current_total d.iter v.iter
+  have hle := abs_le_count d.iter v.iter
+  have key : ∀ s, r = some s → ∃ it', d.iter.advanceP = some it' ∧ abs it' = abs d.iter + 1 := by
+    intro s hs
+    subst hs
+    simp only [Option.isSome_some, true_iff] at hiff
+    obtain ⟨it', ha, _, habs, _⟩ := advance_refines d.iter v.iter
+    exact ⟨it', ha, by rw [habs, Nat.min_def]; split <;> omega⟩
+  rcases hop with ⟨w, h, rfl⟩ | ⟨ox, oy, w, h, rfl⟩ | rfl
+  · show ((d.readSurface w h).2 = .ok → abs (d.readSurface w h).1.iter = abs d.iter + 1 ∧
+        abs d.iter < count d.iter) ∧ ((d.readSurface w h).2 = .noMoreSurfaces ↔ abs d.iter = count d.iter)
+    unfold Dec.readSurface
+    rw [hr]
+    cases r with
+    | none =>
+      simp only [Option.isSome_none, Bool.false_eq_true, false_iff] at hiff
+      (refine ⟨by simp, ?_⟩; simp only [true_iff]; omega)
+    | some s =>
+      obtain ⟨it', ha, habs⟩ := key s rfl
+      simp only [Option.isSome_some, true_iff] at hiff
+      simp only
+      by_cases h1 : normSize w h ≠ (s.w, s.h)
+      · rw [if_pos h1]; (refine ⟨by simp, ?_⟩; simp only [reduceCtorEq, false_iff]; omega)
+      · rw [if_neg h1]
+        by_cases h2 : likelyOverflow d.layout.px (normSize w h).1 (normSize w h).2 = true
+        · rw [if_pos h2]; (refine ⟨by simp, ?_⟩; simp only [reduceCtorEq, false_iff]; omega)
+        · rw [if_neg h2, ha]
+          (refine ⟨fun _ => ⟨habs, hiff⟩, ?_⟩; simp only [reduceCtorEq, false_iff]; omega)
+  · unfold Dec.step
+    rw [hr]
+    cases r with
+    | none =>
+      simp only [Option.isSome_none, Bool.false_eq_true, false_iff] at hiff
+      (refine ⟨by simp, ?_⟩; simp only [true_iff]; omega)
+    | some s =>
+      obtain ⟨it', ha, habs⟩ := key s rfl
+      simp only [Option.isSome_some, true_iff] at hiff
+      simp only
+      by_cases h1 : likelyOverflow d.layout.px s.w s.h = true
+      · rw [if_pos h1]; (refine ⟨by simp, ?_⟩; simp only [reduceCtorEq, false_iff]; omega)
+      · rw [if_neg h1]
+        by_cases h2 : (!containsRect s.w s.h ox oy (normSize w h).1 (normSize w h).2) = true
+        · rw [if_pos h2]; (refine ⟨by simp, ?_⟩; simp only [reduceCtorEq, false_iff]; omega)
+        · rw [if_neg h2, ha]
+          (refine ⟨fun _ => ⟨habs, hiff⟩, ?_⟩; simp only [reduceCtorEq, false_iff]; omega)
+  · unfold Dec.step
+    rw [hr]
+    cases r with
+    | none =>
+      simp only [Option.isSome_none, Bool.false_eq_true, false_iff] at hiff
+      (refine ⟨by simp, ?_⟩; simp only [true_iff]; omega)
+    | some s =>
+      obtain ⟨it', ha, habs⟩ := key s rfl
+      simp only [Option.isSome_some, true_iff] at hiff
+      simp only
+      rw [ha]
+      (refine ⟨fun _ => ⟨habs, hiff⟩, ?_⟩; simp only [reduceCtorEq, false_iff]; omega)
+
+/-- C08, the cursor: `rewind_to_previous_surface` moves it back by one (staying at 0),
+`rewind_to_start` sets it to 0; both always succeed. -/
+theorem rewinding_calls_cursor (d : Dec) (v : DecInv d) :
+    ((d.step .rewindPrev).2.1 = .ok ∧ abs (d.step .rewindPrev).1.iter = abs d.iter - 1) ∧
+    ((d.step .rewindStart).2.1 = .ok ∧ abs (d.step .rewindStart).1.iter = 0) := by
+  constructor
+  · unfold Dec.step
+    obtain ⟨he, hle⟩ := elapsed_refines d.iter v.iter
+    obtain ⟨it', hrw, hi, habs, _, ht, _⟩ := rewind_refines d.iter v.iter
+    obtain ⟨it2, hr2, hle2⟩ := rewind_elapsed_le d.iter v.iter
+    rw [hrw] at hr2
+    simp only [Option.some.injEq] at hr2
+    subst hr2
+    obtain ⟨he', _⟩ := elapsed_refines it' hi
+    rw [he, hrw]
+    simp only [he']
+    have hsmall := v.small
+    have hU : I64MAX < U64 := by decide
+    rw [wSub_eq (by omega) hle2]
+    have hnot : ¬ elapsed d.iter - elapsed it' > I64MAX := by omega
+    rw [if_neg hnot]
+    exact ⟨rfl, habs⟩
+  · unfold Dec.step
+    obtain ⟨he, hle⟩ := elapsed_refines d.iter v.iter
+    rw [he]
+    simp only
+    have hsmall := v.small
+    have hnot : ¬ elapsed d.iter > I64MAX := by omega
+    rw [if_neg hnot]
+    exact ⟨rfl, abs_new _⟩
 
 /-- The cube-map cross: cells are pairwise distinct and lie inside the 4x3 grid (so the
 face cells of a `4w x 3h` image are pairwise disjoint and inside the image). -/
